@@ -13,8 +13,11 @@ from ..ref import errors as rerr, populations as rp, toy
 from . import popbuild, popvals
 from .toymodel import ToyModel
 
-KINDS6 = ['G', 'Gnc', 'LNnc', 'P', 'H', 'Cov(G)']
-KINDS10 = ['G', 'Gnc', 'LN', 'LNnc', 'TG', 'P', 'H', 'Cov(G)', 'Cov(LNnc)', 'Cov(P)']
+# quick alphabet: one representative of every mechanism (centred, non-centred,
+# truncated, pooled, heterogeneous, covariate x {centred, non-centred, pooled})
+KINDS6 = ['G', 'Gnc', 'LNnc', 'TG', 'P', 'H', 'Cov(G)', 'Cov(LNnc)', 'Cov(P)',
+          'Cov(TG)']
+KINDS10 = KINDS6 + ['LN', 'Cov(LN)', 'Cov(Gnc)']
 
 
 def make_case(spec, n_ids, seed, n_mech=2, err='G', ids=None, prior=False):
